@@ -486,6 +486,114 @@ def c05_verify_shortens_only(ctx):
     return q.result()
 
 
+def c11_cache_flush_rule(ctx):
+    q = Q("c11_cache_flush_rule", ["DnsCache::add_or_update::{closure#0} (the cache-flush rule applied to each cached record)"],
+          "every path of the closure; class, now, created, expires: full width; get_class/get_type/get_created/get_expire are pure accessors of the record they are called on",
+          ["clock < 2^62", "accessors of a boxed record are pure", "RRType comparison and the DnsAddress downcast are opaque (both outcomes explored)"])
+    cands = [n for n in ctx.funcs if n.endswith("::add_or_update::{closure#0}")]
+    if len(cands) != 1:
+        q.unknown.append(f"flush closure: {len(cands)} candidates")
+        return q.result()
+    f = ctx.funcs[cands[0]]
+    env, rec = ("env", 0), ("cached", 0)
+    cls, now = z3.BitVec("incoming_class", 16), z3.BitVec("now", 64)
+    objs = {env: {(0, "*"): BV(cls, 16), (2, "*"): BV(now, 64)}, rec: {}}
+    # captured references: (*_1).0: &u16 -> deref gives the class; model the reference cells directly
+    objs[env][(0,)] = Ref(env, (0, "*"))
+    objs[env][(2,)] = Ref(env, (2, "*"))
+    ex = Explorer(ctx.funcs, ctx.consts, pure_accessors={"get_class", "get_type", "get_created", "get_expire"}, max_paths=400)
+    paths = ex.explore(f.name, args=[Ref(env, ()), Ref(rec, ())], objs=objs, assumptions=[z3.ULT(now, TWO62)])
+    if ex.unknown_constructs:
+        q.notes.append("unmodelled: " + "; ".join(sorted(set(ex.unknown_constructs))[:4]))
+    flushed = 0
+    for i, p in enumerate(paths):
+        if p.outcome.startswith("panic"):
+            created = [v for k, v in p.acc.items() if k[0] == "get_created"]
+            pre = p.cond + [z3.ULT(c.e, TWO62) for c in created]
+            q.unsat(pre, "flush rule panics: " + p.outcome[6:40])
+            continue
+        if p.outcome != "return":
+            continue
+        calls = [e for e in p.events if e[0] == "call"]
+        se = [e for e in calls if e[1].split("::")[-1] == "set_expire"]
+        pushes = [e for e in calls if e[1].endswith("::push") and "Vec::<u64>" in e[1]]
+        if not se:
+            if pushes:
+                q.fail.append(("a timer is requested although nothing was flushed", f"path {i}"))
+            continue
+        flushed += 1
+        recv, X = se[0][2][0], se[0][2][1]
+        if not (isinstance(recv, Ref) and recv.obj == rec):
+            q.fail.append(("the shortened expiry is written to a record other than the cached one", f"path {i}: {recv}"))
+            continue
+        q.valid(p.cond, X.e == now + 1000, f"path {i}: a flushed record expires exactly one second later", X.taint)
+        if len(pushes) != 1:
+            q.fail.append(("no wake-up requested for the flushed record's new expiry", f"path {i}: {len(pushes)} timer pushes"))
+        else:
+            T = pushes[0][2][1]
+            q.valid(p.cond, T.e == now + 1000, f"path {i}: the wake-up is requested for the new expiry (now + 1000)", T.taint)
+        def acc(name):
+            v = [val for k, val in p.acc.items() if k[0] == name and k[1] == rec]
+            return v[0] if len(v) == 1 else None
+        created, expire, rclass = acc("get_created"), acc("get_expire"), acc("get_class")
+        if created is None or expire is None or rclass is None:
+            q.fail.append(("the flush guards do not look at the cached record's own created/expires/class", f"path {i}: accessors on the cached record: " + ",".join(sorted({k[0] for k in p.acc if k[1] == rec}))))
+            continue
+        pre = p.cond + [z3.ULT(created.e, TWO62)]
+        q.valid(pre, z3.UGT(now, created.e + 1000), f"path {i}: only records older than one second are flushed")
+        q.valid(pre, z3.UGT(expire.e, now + 1000), f"path {i}: only records with more than one second left are flushed (a flush never extends a lifetime)")
+        q.valid(pre, rclass.e == cls, f"path {i}: only records of the same class are flushed")
+        q.witness(pre, f"path {i}: flush reachable")
+    if flushed == 0:
+        q.unknown.append("no path of the closure flushes")
+    return q.result()
+
+
+def c05_evict_predicate(ctx):
+    q = Q("c05_evict_predicate", ["DnsCache::evict_expired_addr::{closures}", "DnsCache::evict_expired_services::{closures}", "DnsRecord::is_expired"],
+          "every retain-closure of the two eviction functions; record expiry and `now`: u64 x u64",
+          ["get_record() is a pure accessor of the boxed record"])
+    if not check_layout(ctx, q):
+        return q.result()
+    cands = [n for n in ctx.funcs if ("::evict_expired_addr::{closure" in n or "::evict_expired_services::{closure" in n)
+             and ctx.funcs[n].ret == "bool"]
+    if len(cands) < 4:
+        q.unknown.append(f"expected >= 4 keep/evict closures (addr, srv, txt, ptr), found {len(cands)}")
+    cands = [n for n in cands if not any(o != n and o.startswith(n + "::") for o in ctx.funcs)]
+    for n in cands:
+        f = ctx.funcs[n]
+        seen_keep, seen_evict = 0, 0
+        tag = n.split("::")[-3] + "::" + "::".join(n.split("::")[-2:]) if n.count("{closure") > 1 else "::".join(n.split("::")[-2:])
+        ex = Explorer(ctx.funcs, ctx.consts, inline={"is_expired"}, max_paths=300)
+        paths = ex.explore(n)
+        rets = [p for p in paths if p.outcome == "return"]
+        if not rets:
+            q.unknown.append(f"{tag}: no returning path")
+            continue
+        for i, p in enumerate(rets):
+            recs = [o for o in p.objs if isinstance(o, tuple) and o and o[0] == "record-of" and EXPIRES in p.objs[o]]
+            if len(recs) != 1 or not isinstance(p.ret, BoolV):
+                q.unknown.append(f"{tag} path {i}: keep/evict verdict does not come from exactly one record's expiry")
+                continue
+            exp = p.objs[recs[0]][EXPIRES].e
+            others = [v for v in z3_vars(z3.And(p.ret.e, *p.cond)) if v.get_id() != exp.get_id() and v.size() == 64] if True else []
+            others = [v for v in others if "now" in str(v) or ".0" in str(v) or "_" in str(v)]
+            if len(others) != 1:
+                q.unknown.append(f"{tag} path {i}: cannot identify `now` ({[str(o) for o in others][:3]})")
+                continue
+            nowv = others[0]
+            q.valid(p.cond, p.ret.e == z3.Not(z3.UGE(nowv, exp)), f"{tag} path {i}: a record is kept <=> now < expires (evicted exactly from its expiry on)", p.ret.taint)
+            if q.d.check(p.cond + [p.ret.e], f"witness:{tag} path {i}: kept")[0] == "sat":
+                seen_keep += 1
+            if q.d.check(p.cond + [z3.Not(p.ret.e)], f"witness:{tag} path {i}: evicted")[0] == "sat":
+                seen_evict += 1
+        if seen_keep and seen_evict:
+            q.nontrivial += 1
+        else:
+            q.unknown.append(f"vacuous: {tag}: kept reachable={seen_keep}, evicted reachable={seen_evict}")
+    return q.result()
+
+
 # ---------------------------------------------------------------------------------------------
 # C07: probe clock
 # ---------------------------------------------------------------------------------------------
@@ -901,9 +1009,9 @@ def c07_reannounce_delay(ctx):
 
 
 SPECS = {
-    "C11": [c11_new_lifetime, c11_predicates, c11_refresh_schedule, c11_reset_restarts],
+    "C11": [c11_new_lifetime, c11_predicates, c11_refresh_schedule, c11_reset_restarts, c11_cache_flush_rule],
     "C10": [c10_update_ttl, c10_known_answer_filter],
-    "C05": [c05_reset_restores, c05_verify_deadline, c05_verify_shortens_only],
+    "C05": [c05_reset_restores, c05_verify_deadline, c05_verify_shortens_only, c05_evict_predicate],
     "C07": [c07_probe_clock, c07_reannounce_delay],
     "C12": [c12_poll_timeout, c12_ipcheck_rearm],
     "C19": [c19_browse_backoff, c19_hostname_backoff, c19_resolve_retry, c19_initial_delay, c19_rerun_due],
